@@ -10,7 +10,7 @@ MODEL_FILES = ["Model/M_Collection.v", "Model/M_Slicing.v"]
 DEPS = ["pyindex"]
 RULE = ("cases = (members: key, shape, aligned axes in any per-member order; history of <=3 edits among numeric "
         "slice, key selection, copy, pop, del, update(compatible|incompatible), refused ops); generated with the "
-        "run's seed over 1-3 cube members of 2-4 dims (NDCubeSequence members not generated), 0-4 aligned axes; distinct by key; "
+        "run's seed over 1-3 cube members of 2-4 dims and NDCubeSequences of 1-3-D cubes (axis 0 = sequence axis, aligned or not), 0-4 aligned axes; distinct by key; "
         "non-trivial = history contains a numeric slice dropping an aligned axis or a key edit")
 ASSUMPTIONS = ["per-member slicing is C01/C11's subject; here shapes, aligned axes, keys and element identity are observed"]
 KEYS = ["a", "b", "c", "d", "e"]
@@ -49,11 +49,11 @@ def gen(tier, rng):
         n_al = rng.choice([0, 1, 1, 2, 2, 3, 3, 3, 4 if tier != "quick" or rng.random() < 0.3 else 3])
         n_mem = rng.randint(1, 3)
         members = [_rand_member(rng, k, n_al) for k in range(n_mem)]
-        if False and n_al >= 1 and rng.random() < 0.12:   # NDCubeSequence members: not generated yet
-            # one member is an NDCubeSequence whose sequence axis is its aligned axis number ... wherever axis 0 is
-            m = members[rng.randrange(n_mem)]
-            if 0 in m["al"] and len(m["shape"]) >= 3:
-                m["seq"] = True
+        if rng.random() < 0.3:
+            # NDCubeSequence members: axis 0 of the member is the sequence axis (aligned or not), the rest are cube axes
+            for m in members:
+                if rng.random() < 0.6:
+                    m["seq"] = True
         ops = []
         cur_keys = [m["key"] for m in members]
         cur_nal = n_al
@@ -88,6 +88,7 @@ def gen(tier, rng):
                 nk = rng.choice([3, rng.choice(cur_keys) if cur_keys else 3])
                 if kind == "ok":
                     new = [_rand_member(rng, nk, n_al)]
+                    new[0]["seq"] = rng.random() < 0.15
                     new_al = n_al > 0
                 elif kind == "wrong_n":
                     new = [_rand_member(rng, nk, max(1, (n_al + 1) % 4))]
@@ -137,7 +138,7 @@ def _state(coll):
         v = coll[k]
         shape = [int(x) if not isinstance(x, tuple) else int(x[0]) for x in v.shape]
         al = [] if aa is None or k not in aa else [int(x) for x in aa[k]]
-        mem.append([KEYS.index(k), shape, al])
+        mem.append([KEYS.index(k), shape, al, not hasattr(v, "wcs")])
     return {"members": mem, "aligned": aa is not None}
 
 
@@ -210,6 +211,8 @@ def run(case):
                 why.append(f"refused operation {op[1]} was accepted")
         except Exception as e:  # noqa
             exc = exc_name(e)
+        if exc is None and any(_empty_seq(v) for v in (res if res is not None else coll).values()):
+            break           # an empty NDCubeSequence has no shape: nothing about it can be observed (outside the quantifier)
         if exc is not None:
             after = _state(coll)
             trace.append({"raised": True, "state": after})
@@ -218,6 +221,9 @@ def run(case):
             valid = _valid(op, before)
             if valid:
                 why.append(f"{op[0]} raised {exc} on a valid edit")
+            if valid is None:
+                trace.pop()
+                break       # neither outcome is specified (see _valid): nothing further is judged
         else:
             if res is not None:
                 # slicing: element identity / physical axes
@@ -236,7 +242,7 @@ def run(case):
             f = _invariant_fail(coll)
             if f:
                 why.append(f)
-            if op[0] != "refused" and not _valid(op, before) and not why:
+            if op[0] != "refused" and _valid(op, before) is False and not why:
                 why.append(f"{op[0]} accepted an edit that must be refused: {op}")
         if why:
             break
@@ -254,15 +260,23 @@ def _valid(op, st):
         its = op[1]
         if len(its) > nal:
             return False
+        unspecified = False
         for m in st["members"]:
             for i, it in enumerate(its):
                 n = m[1][m[2][i]]
                 if isinstance(it, int) and not -n <= it < n:
                     return False
-            # 0-d members do not exist
-            if len(m[1]) - sum(isinstance(i, int) for i in its) < 1:
+            # 0-d members do not exist; nor do sequences of 0-d cubes
+            cube_axes_dropped = sum(isinstance(it, int) for i, it in enumerate(its) if not (m[3] and m[2][i] == 0))
+            if len(m[1]) - (1 if m[3] else 0) - cube_axes_dropped < 1:
                 return False
-        return True
+            # a slice selecting nothing along a sequence axis would give an empty sequence, which has no shape:
+            # whether that is refused or returned is not specified
+            if m[3]:
+                for i, it in enumerate(its):
+                    if m[2][i] == 0 and not isinstance(it, int) and len(range(m[1][0])[Q.dec_items([it])[0]]) == 0:
+                        unspecified = True
+        return None if unspecified else True
     if op[0] == "select":
         return all(k in keys for k in op[1]) and len(set(op[1])) == len(op[1])
     if op[0] == "copy":
@@ -282,16 +296,26 @@ def _valid(op, st):
     return False
 
 
+def _empty_seq(v):
+    return not hasattr(v, "wcs") and len(v.data) == 0
+
+
+def _payload(v):
+    """the member's data as one array: a sequence is the stack of its cubes along a new leading axis"""
+    return v.data if hasattr(v, "wcs") else np.stack([c.data for c in v.data])
+
+
 def _slice_fail(pre, res, its):
-    from ndcube import NDCube
     for k, (src, al) in pre.items():
-        if not isinstance(src, NDCube):
-            continue
-        item = [slice(None)] * src.data.ndim
+        full = _payload(src)
+        item = [slice(None)] * full.ndim
         for i, it in enumerate(its):
             item[al[i]] = it
-        exp = src.data[tuple(item)]
-        got = res[k].data
+        exp = full[tuple(item)]
+        got = _payload(res[k])
+        seq_dropped = (not hasattr(src, "wcs")) and any(al[i] == 0 and isinstance(it, int) for i, it in enumerate(its))
+        if hasattr(res[k], "wcs") != (hasattr(src, "wcs") or seq_dropped):
+            return f"member {k}: result is a {type(res[k]).__name__}, expected a {'cube' if hasattr(src, 'wcs') or seq_dropped else 'sequence'}"
         if got.shape != exp.shape or not np.array_equal(got, exp):
             return f"member {k}: data differ from slicing its own aligned axes {al} with {its}"
         if res.aligned_axes is None:
@@ -312,7 +336,7 @@ def _slice_fail(pre, res, its):
 
 
 def _coq_member(m):
-    return f"(mkM {Q.z(m[0])} {Q.lst(m[1], Q.z)} {Q.lst(m[2], Q.z)})"
+    return f"(mkM {Q.z(m[0])} {Q.lst(m[1], Q.z)} {Q.lst(m[2], Q.z)} {Q.b(bool(m[3]) if len(m) > 3 else False)})"
 
 
 def _coq_coll(st):
@@ -331,13 +355,13 @@ def _coq_op(op):
     if op[0] == "del":
         return f"(CDel {Q.z(op[1])})"
     if op[0] == "update":
-        new = [[m["key"], m["shape"], m["al"]] for m in op[1]]
+        new = [[m["key"], m["shape"], m["al"], m.get("seq", False)] for m in op[1]]
         return f"(CUpdate {Q.lst([_coq_member(m) for m in new])} {Q.b(op[2])})"
     return "CRefused"
 
 
 def coq_case(case, res):
-    st0 = {"members": [[m["key"], m["shape"], m["al"]] for m in case["members"]], "aligned": case["n_al"] > 0}
+    st0 = {"members": [[m["key"], m["shape"], m["al"], m.get("seq", False)] for m in case["members"]], "aligned": case["n_al"] > 0}
     n = res["out"].get("n", len(res["out"]["trace"]))
     tr = Q.lst([f"(mkObs {Q.b(o['raised'])} {_coq_coll(o['state'])})" for o in res["out"]["trace"][:n]])
     return f"mk {_coq_coll(st0)} {Q.lst([_coq_op(o) for o in case['ops'][:n]])} {tr}"
